@@ -55,3 +55,31 @@ Definition judge_class (r : rule) (bs : bytes) : N :=
   if cddl_ok_bytes conway_env r bs then 0
   else if cddl_ok_bytes relaxed_env (relax r) bs then 1
   else 2.
+
+(* C03-json-reader-skips-text-bounds - URL, DNSRecordAorAAAA and DNSRecordSRV derive serde::Deserialize, so a url / dns name
+   longer than 128 bytes supplied through from_json (of the type or of any enclosing type) is accepted and emitted.  Class
+   decided on the bytes: they fail the Conway rule and conform once every `tstr .size (0..128)` (url, dns_name) is widened to
+   any text - nothing else relaxed.  REPAIRED in /repo 3ae397a (hand-written readers through new_impl): the driver no longer
+   consults this class - such bytes alarm again; the definition documents how the finding was decided. *)
+Fixpoint widen_text128 (r : rule) : rule :=
+  match r with
+  | RText 0 128 => RText 0 18446744073709551615
+  | RArr fs => RArr (map widen_text128 fs)
+  | RArrOf lo r => RArrOf lo (widen_text128 r)
+  | RArrAny lo r => RArrAny lo (widen_text128 r)
+  | RMap fs => RMap (map (fun f => match f with (j, req, r) => (j, req, widen_text128 r) end) fs)
+  | RMapOf lo k v => RMapOf lo (widen_text128 k) (widen_text128 v)
+  | RTag t r => RTag t (widen_text128 r)
+  | RSet lo r => RSet lo (widen_text128 r)
+  | RSetAny lo r => RSetAny lo (widen_text128 r)
+  | RChoice alts => RChoice (map widen_text128 alts)
+  | RCborIn r => RCborIn (widen_text128 r)
+  | r => r
+  end.
+Definition wide_text_env : env := map (fun p => (fst p, widen_text128 (snd p))) conway_env.
+(* 0 = conforms; 1 = mint quantity outside int64; 6 = only an over-long url / dns name; 2 = any other violation *)
+Definition judge_class_json (r : rule) (bs : bytes) : N :=
+  match judge_class r bs with
+  | 2 => if cddl_ok_bytes wide_text_env (widen_text128 r) bs then 6 else 2
+  | c => c
+  end.
